@@ -66,7 +66,24 @@ class C19:
         cov["exhaustive"] = True
         cov["exhaustive_part"] = n
         cov["random_part"] = m
-        return {"coverage": cov, "failures": failures}
+        # ---- "every addition and removal is also reflected in which source addresses the proxy recognises as its backends
+        #      when attributing responses": the whole proxy (started through startProxy with a backend given by host name),
+        #      membership changes through the real resolver path interleaved with requests, answers from members and from
+        #      addresses that have left, and requests of dialogs whose backend has gone; model vs. real proxy event by event,
+        #      and the judges of C04 (pins / rotation) and C03 (a backend destination is a registered backend)
+        import proxygen as pg, proxyflows as pf, proxycheck as pc
+        nw = 150 if tier == "quick" else 4000
+        blocks = pg.alloc_blocks(nw)
+        wcases = []
+        for i in range(nw):
+            f = pf.membership_history(rng, blocks[i])
+            wcases.append(f.s.case("mh%d" % i, {"kind": "membership-history", "static_backends": len(f.s.listens[f.li]["backends"])}))
+        wcov, wfail = pc.explore(ctx, "C19", wcases, ["proxy-C04", "proxy-C03"], nontrivial=lambda c, ni: sum(1 for o, _ in ni if o) >= 2)
+        cov["proxy_level"] = wcov
+        cov["evaluations"] += wcov["evaluations"]
+        cov["distinct_nontrivial"] += wcov["distinct_nontrivial"]
+        cov["traces_validated_against_impl"] += wcov["traces_validated_against_impl"]
+        return {"coverage": cov, "failures": failures + wfail}
 
 
 PROP = C19()
